@@ -15,8 +15,9 @@ REQS = {"InlineJavascriptRequirement": {}, "ScatterFeatureRequirement": {}, "Ste
         "MultipleInputFeatureRequirement": {}, "SubworkflowFeatureRequirement": {}}
 
 JOB = {"a": 1, "b": 5, "xs": [1, 2, 3], "ys": [10, 20, 30], "e": [], "one": [7], "s": "it's a b", "t": True,
-       "rec": {"p": 2, "q": "z"}}
+       "rec": {"p": 2, "q": "z"}, "xl": list(range(1, 13))}  # xl: 12 elements -- scatter indices reach two digits
 INPUT_TYPES = {"a": "int", "b": "int", "xs": "int[]", "ys": "int[]", "e": "int[]", "one": "int[]", "s": "string", "t": "boolean",
+               "xl": "int[]",
                "rec": {"type": {"type": "record", "name": "rec_t", "fields": {"p": "int", "q": "string"}}}}
 REC_T = {"type": "record", "name": "rec_t", "fields": {"p": "int", "q": "string"}}
 
@@ -58,6 +59,23 @@ def clt_file():
 
 def clt_cat():
     return {"class": "CommandLineTool", "baseCommand": "cat", "inputs": {"f": {"type": "File", "inputBinding": {"position": 1}}},
+            "stdout": "c.txt", "requirements": {"InlineJavascriptRequirement": {}},
+            "outputs": {"o": {"type": "string", "outputBinding": {"glob": "c.txt", "loadContents": True,
+                                                                   "outputEval": "$(self[0].contents)"}}}}
+
+
+def clt_dir():
+    """a Directory with three files (one nested, two with identical content in different places)"""
+    return {"class": "CommandLineTool", "baseCommand": ["sh", "-c"], "inputs": {"x": {"type": "int"}},
+            "arguments": [{"position": 1, "valueFrom": "mkdir -p d-$(inputs.x)/sub && echo a-$(inputs.x) > d-$(inputs.x)/a.txt && "
+                                                       "echo b > d-$(inputs.x)/b.txt && echo b > d-$(inputs.x)/sub/c.txt"}],
+            "requirements": {"InlineJavascriptRequirement": {}},
+            "outputs": {"o": {"type": "Directory", "outputBinding": {"glob": "d-*"}}}}
+
+
+def clt_dir_cat():
+    return {"class": "CommandLineTool", "baseCommand": ["sh", "-c"], "inputs": {"d": {"type": "Directory"}},
+            "arguments": [{"position": 1, "valueFrom": "cd $(inputs.d.path) && find . -type f | LC_ALL=C sort | xargs cat"}],
             "stdout": "c.txt", "requirements": {"InlineJavascriptRequirement": {}},
             "outputs": {"o": {"type": "string", "outputBinding": {"glob": "c.txt", "loadContents": True,
                                                                    "outputEval": "$(self[0].contents)"}}}}
@@ -182,6 +200,19 @@ def f_file_scatter(w, n, src):
     return _step(w, n, clt_file(), {"x": src["int[]"]}, scatter="x"), "File[]"
 
 
+def f_dir_out(w, n, src):
+    return _step(w, n, clt_dir(), {"x": src["int"]}), "Directory"
+
+
+def f_dir_use(w, n, src):
+    s1 = _step(w, n + "mk", clt_dir(), {"x": src["int"]})
+    return _step(w, n + "cat", clt_dir_cat(), {"d": s1}), "string"
+
+
+def f_dir_scatter(w, n, src):
+    return _step(w, n, clt_dir(), {"x": src["int[]"]}, scatter="x"), "Directory[]"
+
+
 FEATURES = {
     # name: (function, input kind it consumes, class)
     "expr": (f_expr, "int", "tool"), "clt": (f_clt, "int", "tool"), "clt_k": (f_clt_k, "int", "tool"),
@@ -194,6 +225,9 @@ FEATURES = {
     "nested_empty": (_scatter2("nested_crossproduct", "e", "ys"), "none", "scatter2"),
     "flat_one": (_scatter2("flat_crossproduct", "one", "ys"), "none", "scatter2"),
     "dot_empty": (_scatter2("dotproduct", "e", "e"), "none", "scatter2"),
+    "scatter12": (_scatter1("xl"), "none", "scatter"), "dot12": (_scatter2("dotproduct", "xl", "xl"), "none", "scatter2"),
+    "flat12": (_scatter2("flat_crossproduct", "xl", "one"), "none", "scatter2"),
+    "nested12": (_scatter2("nested_crossproduct", "xl", "ys"), "none", "scatter2"),
     "when_true": (_when("$(inputs.x < 100)"), "int", "when"), "when_false": (_when("$(inputs.x > 100)"), "int", "when"),
     "when_scatter": (_when("$(inputs.x % 2 == 1)", True), "int[]", "when"),
     "pick_first": (_pick("first_non_null", True), "int", "pick"), "pick_first2": (_pick("first_non_null", False), "int", "pick"),
@@ -207,6 +241,7 @@ FEATURES = {
     "loop_clt": (_loop(25, "last", "clt"), "int", "loop"),
     "record": (f_record, "int", "values"), "file": (f_file, "int", "values"), "file_out": (f_file_out, "int", "values"),
     "file_scatter": (f_file_scatter, "int[]", "values"),
+    "dir_out": (f_dir_out, "int", "values"), "dir_use": (f_dir_use, "int", "values"), "dir_scatter": (f_dir_scatter, "int[]", "values"),
 }
 
 
@@ -303,7 +338,22 @@ def normalize(v):
             if v.get("class") == "File" and p and os.path.isfile(p):
                 with open(p, "rb") as f:
                     h = hashlib.sha1(f.read()).hexdigest()
-            return {"class": v["class"], "sha1": h or v.get("checksum"), "size": v.get("size"),
+            if v.get("class") == "Directory":
+                # a directory is its tree on disk: sorted (relative path, sha1 of content)
+                tree = None
+                if p and os.path.isdir(p):
+                    tree = []
+                    for root, dirs, files in os.walk(p):
+                        dirs.sort()
+                        for fn in sorted(files):
+                            with open(os.path.join(root, fn), "rb") as f:
+                                tree.append((os.path.relpath(os.path.join(root, fn), p), hashlib.sha1(f.read()).hexdigest()))
+                        if not dirs and not files:
+                            tree.append((os.path.relpath(root, p) + "/", None))
+                return {"class": "Directory", "basename": v.get("basename") or (os.path.basename(p.rstrip("/")) if p else None),
+                        "tree": tree}
+            return {"class": v["class"], "basename": v.get("basename") or (os.path.basename(p) if p else None),
+                    "sha1": h or v.get("checksum"), "size": v.get("size"),
                     "secondaryFiles": normalize(v.get("secondaryFiles", [])), "listing": normalize(v.get("listing", []))}
         return {k: normalize(x) for k, x in sorted(v.items())}
     return v
